@@ -124,7 +124,11 @@ def finish(prop, tier, seed, tasks, results, wall, known, extra=None):
         if script is None and prop in SCENARIO_PROPS:
             script = "scenario.py"  # native scenario search with property oracles, seeded by the counter-model
         payload = None
-        if script:
+        if name.startswith("regression-of-fixed-finding/"):
+            # the witness of the fixed finding is the failing input, and it has just been replayed on this tree
+            fk = next(f for f in known if f["id"] == name.split("/", 1)[1])
+            script, payload, rep = fk["witness"]["script"], fk["witness"].get("payload", {}), o.get("model")
+        elif script:
             try:
                 payload = {"obligation": name, "model": o.get("model"), "detail": o.get("detail"), "property": prop,
                            "budget_s": 20, "seed": seed}
@@ -137,6 +141,27 @@ def finish(prop, tier, seed, tasks, results, wall, known, extra=None):
         rp.write_text(json.dumps(data, indent=1, default=str))
         reproduced = bool(rep and rep.get("reproduced"))
         violations.append((name, rp, reproduced))
+
+    # ---- bounded native stand-in when the deductive check could not decide (crash / outside the subset / solver unknown):
+    # a seeded search over scripted scenarios on the REAL code with oracles written from the property statement.  It can only
+    # add a replayed failing input (a genuine violation); finding nothing leaves the verdict undecided / crashed - never "held".
+    native_search = None
+    if not violations and (crashes or undecided or unsupported or errors) and prop in SCENARIO_PROPS:
+        budget = 60 if tier == "thorough" else 25
+        try:
+            payload = {"obligation": "undecided", "model": None, "property": prop, "budget_s": budget, "seed": seed or 1}
+            rep = replay_native("scenario.py", payload, timeout=budget * 4 + 60)
+        except Exception as e:  # pragma: no cover
+            rep = {"reproduced": None, "error": str(e)}
+        native_search = {"label": "bounded", "budget_s": budget, "scenarios_tried": rep.get("scenarios_tried"),
+                         "reproduced": bool(rep.get("reproduced")), "violated_clause": rep.get("violated_clause")}
+        if rep.get("reproduced"):
+            name = f"native-search/{prop}/{rep.get('violated_clause') or 'property-oracle'}"
+            rp = replay_dir / f"{prop}_native-search.json"
+            rp.write_text(json.dumps({"property": prop, "obligation": name, "task": "native scenario search (bounded stand-in)",
+                                      "why": "the deductive check was undecided on this tree (see UNDECIDED / ENGINE-CRASH lines)",
+                                      "script": "scenario.py", "payload": payload, "native_replay": rep}, indent=1, default=str))
+            violations.append((name, rp, True))
 
     # ---- verdict
     if violations:
@@ -204,7 +229,7 @@ def finish(prop, tier, seed, tasks, results, wall, known, extra=None):
             "vacuity": {"guard_failures": guard_msgs,
                         "covers_reached": sum(len(r["covers"]) for r in results)},
             "known_findings": finding_status,
-            "bounded": bounded,
+            "bounded": bounded + ([native_search] if native_search else []),
             **(extra or {}),
             "samples": samples,
             "explanation": (
